@@ -137,9 +137,15 @@ def keep(seed, prop, name, meta_extra):
     d = os.path.join(VERIF, "seeded", name)
     os.makedirs(d, exist_ok=True)
     for f in ("patch.diff", "demo.py"):
-        shutil.copy2(os.path.join(seed, f), os.path.join(d, f))
+        if os.path.abspath(os.path.join(seed, f)) != os.path.abspath(os.path.join(d, f)):
+            shutil.copy2(os.path.join(seed, f), os.path.join(d, f))
     note = open(os.path.join(seed, "note.txt"), encoding="utf-8").read().strip() if os.path.exists(os.path.join(seed, "note.txt")) else ""
     meta = {"breaks_property": prop, "needs_to_manifest": note}
+    if not note and os.path.exists(os.path.join(d, "meta.json")):
+        try:
+            meta["needs_to_manifest"] = json.load(open(os.path.join(d, "meta.json"), encoding="utf-8")).get("needs_to_manifest", "")
+        except Exception:  # noqa: BLE001
+            pass
     meta.update(meta_extra)
     with open(os.path.join(d, "meta.json"), "w", encoding="utf-8") as f:
         json.dump(meta, f, ensure_ascii=False, indent=1)
